@@ -353,12 +353,14 @@ func (e *erasureCodingPartStore) getPartWithHealing(ctx context.Context, tx data
 func (e *erasureCodingPartStore) openPartReaders(ctx context.Context, tx database.Tx, partId partstore.PartId) ([]io.ReadCloser, []bool, error) {
 	readers := make([]io.ReadCloser, e.totalShards)
 	healShards := make([]bool, e.totalShards)
+	notFound := 0
 	for i := 0; i < e.totalShards; i++ {
 		rc, err := e.partStores[i].GetPart(ctx, tx, partId)
 		if err != nil {
 			if errors.Is(err, partstore.ErrPartNotFound) {
 				readers[i] = nil
 				healShards[i] = true
+				notFound++
 				continue
 			}
 			closePartReaders(readers)
@@ -384,6 +386,11 @@ func (e *erasureCodingPartStore) openPartReaders(ctx context.Context, tx databas
 			continue
 		}
 		readers[i] = rc
+	}
+	if notFound == e.totalShards {
+		// No shard store knows the part: it does not exist. Without this check the
+		// heal path would write the shards of an empty part and return an empty stream.
+		return nil, nil, partstore.ErrPartNotFound
 	}
 	return readers, healShards, nil
 }
